@@ -560,6 +560,9 @@ class MessageManager(ClientLike):
 
         for n in range(len(subscribers)):
             module = subscribers[n]
+            # Skip subscribers that were removed while a failure earlier in this loop was handled
+            if module.conn not in self.modules:
+                continue
             if module.conn in self.wlist:
                 try:
                     if (
@@ -610,7 +613,10 @@ class MessageManager(ClientLike):
             header (MessageHeader): Message header to send
             payload (Union[bytes, MessageData]): Message data to send
         """
-        for module in self.logger_modules:
+        # Iterate over a copy, a failed send removes the module from the set
+        for module in list(self.logger_modules):
+            if module.conn not in self.modules:
+                continue
             if module.conn not in self.wlist:
                 # Block until logger is ready
                 select.select([], [module.conn], [], None)
